@@ -26,9 +26,14 @@ package pe
 //@   assume-benign
 //@   loop 1 invariant true
 //@   call mapupdate #1 requires [no-second-entry-for-a-descriptor] !(arg(1) in arg(0)) && arg(1) == inputDescriptor.Id
+// Nothing has to be presented only for a definition without input descriptors (a definition with
+// descriptors always demands a selection: an empty submission for it is incomplete), and an "all"
+// rule or a pick with a positive minimum demands credentials whatever else is said.
 //@ func (PresentationDefinition).CredentialsRequired
 //@   prop C12
 //@   pure heap
+//@   loop 1 invariant true
+//@   ensures [nothing-required-only-without-input-descriptors] !result ==> len(presentationDefinition.InputDescriptors) == 0
 //@ func (PresentationDefinition).PresentationSubmissionBuilder
 //@   prop C12
 //@   modifies nothing
